@@ -336,8 +336,13 @@ func checkAPIKey(r *http.Request) *AuthToken {
 	// Check if the provided API key exists.
 	token, ok := apiKeys[key]
 	if !ok {
+		// Only log a short prefix of the key, which may be shorter than that.
+		keyPrefix := key
+		if len(keyPrefix) > 4 {
+			keyPrefix = keyPrefix[:4]
+		}
 		log.Tracer(r.Context()).Tracef(
-			"api: provided api key %s... is unknown", key[:4],
+			"api: provided api key %s... is unknown", keyPrefix,
 		)
 		return nil
 	}
